@@ -64,9 +64,9 @@ def drive(camp, progs, kw, sessions, on_session=None, limit=None):
         calls = s["calls"]
         if calls[0].get("oom"):
             continue
-        data = bytes(s["data"])
+        data = bytes(calls[0]["data"])
         idx = {"parse": None, "build": None, "reparse": None, "calls": {}}
-        idx["parse"], c = camp.parse(prog, con, data, 0, kw, tag="mc")
+        idx["parse"], c = camp.parse(prog, con, data, calls[0].get("start", 0), kw, tag="mc")
         idx["calls"]["parse"] = c
         direct += _differs(calls[0], c)
         if len(calls) > 1 and calls[0]["ok"] and not calls[1].get("oom"):
@@ -75,11 +75,11 @@ def drive(camp, progs, kw, sessions, on_session=None, limit=None):
             except Exception:
                 obj = None
             else:
-                idx["build"], c = camp.build(prog, con, obj, b"", kw, tag="mc", arg=calls[1]["arg"])
+                idx["build"], c = camp.build(prog, con, obj, bytes(calls[1]["data"]), kw, tag="mc", arg=calls[1]["arg"])
                 idx["calls"]["build"] = c
                 direct += _differs(calls[1], c)
                 if len(calls) > 2 and calls[1]["ok"] and not calls[2].get("oom"):
-                    idx["reparse"], c = camp.parse(prog, con, bytes(calls[2]["data"]), 0, kw, tag="mc")
+                    idx["reparse"], c = camp.parse(prog, con, bytes(calls[2]["data"]), calls[2].get("start", 0), kw, tag="mc")
                     idx["calls"]["reparse"] = c
                     direct += _differs(calls[2], c)
         if on_session:
